@@ -16,7 +16,7 @@ PROP = 'C01'
 LEVEL = 'fault_enumeration'
 EVAL_KEY = 'decompositions'
 TIERS = {
-    'quick': {'runs': 2400, 'opts': {}, 'chunk': 30},
+    'quick': {'runs': 20000, 'opts': {}, 'chunk': 100},
     'thorough': {'runs': 100000, 'opts': {}, 'chunk': 100, 'time_cap': 1200},
 }
 RULE = ('seeded dense sources with known structure (low rank + noise near the per-bond allowance; super-diagonal spectra that '
